@@ -267,6 +267,34 @@ def prove_accept(src_root, ex: Explorer):
     ex.run(path, 'accept')
 
 
+def prove_accepted_registered(src_root, ex: Explorer):
+    """Network.on_peer_accepted (the handler ListeningConnection.accept awaits right after reporting CONNECTED): the accepted connection is
+    in the registry BEFORE the handler first suspends - while it waits for the init message the connection is open, so it has to be
+    registered (counted, closed by Network.disconnect(), removed again on CLOSED)."""
+    def path(ctx: Ctx):
+        it = mk(src_root, ctx)
+        registry = []
+        conn = Stub('accepted connection', receive_message_object=Recorder('receive_message_object', is_async=True),
+                    disconnect=Recorder('disconnect', is_async=True))
+        net = new(it, NET, 'Network', peer_connections=registry)
+        seen = []
+
+        def on_yield(it2, label):
+            if not seen:
+                seen.append(label)
+                ctx.prove('C10.accepted.registered-before-suspension', any(c is conn for c in net.attrs['peer_connections']),
+                          f'the handler suspends on {label} while the accepted (open) connection is not in the registry')
+            raise PathAbort()
+        it.aio.on_yield = on_yield
+        try:
+            run(it, it.getattr(net, 'on_peer_accepted'), conn)
+        except PyRaise:
+            pass
+        if not seen:
+            ctx.prove('C10.accepted.registered-before-suspension', any(c is conn for c in net.attrs['peer_connections']), 'the accepted connection is never registered')
+    ex.run(path, 'accepted-registered')
+
+
 def prove_registry(src_root, ex: Explorer):
     def removal(ctx: Ctx):
         it = mk(src_root, ctx)
@@ -297,7 +325,7 @@ def prove_registry(src_root, ex: Explorer):
 
 
 def items(src_root, tier):
-    return [('set_state', None), ('connect', None), ('disconnect', None), ('after', None), ('accept', None), ('registry', None)]
+    return [('set_state', None), ('connect', None), ('disconnect', None), ('after', None), ('accept', None), ('registry', None), ('accepted', None)]
 
 
 def run_item(src_root, item, tier):
@@ -306,11 +334,11 @@ def run_item(src_root, item, tier):
     kind, arg = item
     try:
         {'set_state': prove_set_state, 'connect': prove_connect, 'disconnect': prove_disconnect, 'after': prove_after_closed,
-         'accept': prove_accept, 'registry': prove_registry}[kind](src_root, ex)
+         'accept': prove_accept, 'registry': prove_registry, 'accepted': prove_accepted_registered}[kind](src_root, ex)
     except Unsupported as e:
         res.errors.append(f'{kind}: unsupported: {e}')
     collect(res, ex)
     res.functions.update([f'{CONN}:Connection.set_state', f'{CONN}:DataConnection.connect', f'{CONN}:DataConnection.disconnect',
                           f'{CONN}:DataConnection.send_message', f'{CONN}:DataConnection._send', f'{CONN}:ListeningConnection.accept',
-                          f'{NET}:Network.on_state_changed', f'{NET}:Network._on_peer_connection_state_changed', f'{NET}:Network.remove_peer_connection'])
+                          f'{NET}:Network.on_state_changed', f'{NET}:Network.on_peer_accepted', f'{NET}:Network._on_peer_connection_state_changed', f'{NET}:Network.remove_peer_connection'])
     return res
